@@ -146,6 +146,21 @@ Theorem decimal_ops_rounded : forall a b,
   dval (to_integral HalfUp a) == inject_Z (rhaQ (dval a)).
 Proof. exact decimal_ops_lemma. Qed.
 
+(* integer formats given a fractional value, bound or step take the same
+   six-digit path; the int handed over is within 1/2 of its result *)
+Theorem int_fractional_six_digits : forall f omin omax s str v,
+  is_integer_fmt f = true -> dcoef s <> 0%N ->
+  let c := clamp omin omax v in
+  let off := match omin with Some m => m | None => dzero end in
+  is_integral HalfUp c && is_integral HalfUp off && is_integral HalfUp s = false ->
+  let C := clampQ (option_map dval omin) (option_map dval omax) (dval v) in
+  let O := offQ omin in
+  exists z res d q m,
+    check_convert f omin omax (Some s) str (RFin v) = Ok (VInt z) /\
+    Qabs (inject_Z z - dval res) <= 1 # 2 /\
+    rnd6 (C - O) d /\ rnd6 (d / dval s) q /\ rnd6 (inject_Z (rhaQ q) * dval s) m /\ rnd6 (O + m) (dval res).
+Proof. exact int_dec_path_lemma. Qed.
+
 (* non-vacuity: the lennox case of tests/test_model.py with short decimals
    (27.26, min 10, max 38, step 0.5 -> 27.5) meets the hypotheses of
    frac_exact_small; and the same value as the float 27.26 really is (its
@@ -192,3 +207,4 @@ Print Assumptions float_nostep_exact.
 Print Assumptions near_is_5e_6.
 Print Assumptions rhaQ_is_nearest.
 Print Assumptions decimal_ops_rounded.
+Print Assumptions int_fractional_six_digits.
